@@ -79,3 +79,73 @@ pub fn raw_params(set: &str) -> Option<(u128, u128, u128, u128, usize, u128, u12
         _ => None,
     }
 }
+
+/// Hook H2: the crate-private NTT and Lagrange-basis polynomial routines, unchanged, with buffers
+/// allocated from the requested lengths. Errors are reported by their `Debug` names.
+pub mod poly {
+    use crate::field::NttFriendlyFieldElement;
+    use crate::{ntt, polynomial};
+
+    fn e<T>(r: Result<T, ntt::NttError>) -> Result<T, String> {
+        r.map_err(|e| format!("{e:?}"))
+    }
+    /// `ntt` / `ntt_set_s` into a zeroed buffer of `out_len` elements.
+    pub fn ntt<F: NttFriendlyFieldElement>(out_len: usize, inp: &[F], size: usize, set_s: bool) -> Result<Vec<F>, String> {
+        let mut out = vec![F::zero(); out_len];
+        if set_s {
+            e(ntt::ntt_set_s(&mut out, inp, size))?;
+        } else {
+            e(ntt::ntt(&mut out, inp, size))?;
+        }
+        Ok(out)
+    }
+    /// `ntt_inv` into a zeroed buffer of `out_len` elements.
+    pub fn ntt_inv<F: NttFriendlyFieldElement>(out_len: usize, inp: &[F], size: usize) -> Result<Vec<F>, String> {
+        let mut out = vec![F::zero(); out_len];
+        e(ntt::ntt_inv(&mut out, inp, size))?;
+        Ok(out)
+    }
+    /// `poly_eval_lagrange_batched`.
+    pub fn eval_lagrange_batched<F: NttFriendlyFieldElement>(polys: &[Vec<F>], x: F) -> Vec<F> {
+        polynomial::poly_eval_lagrange_batched(polys, x)
+    }
+    /// `nth_root_powers`.
+    pub fn nth_root_powers<F: NttFriendlyFieldElement>(n: usize) -> Vec<F> {
+        polynomial::nth_root_powers(n)
+    }
+    /// `extend_values_to_power_of_2` on a copy of `poly`.
+    pub fn extend_values_to_power_of_2<F: NttFriendlyFieldElement>(poly: &[F], num_values: usize) -> Vec<F> {
+        let mut p = poly.to_vec();
+        polynomial::extend_values_to_power_of_2(&mut p, num_values);
+        p
+    }
+    /// `double_evaluations` into a zeroed buffer of `out_len` elements.
+    pub fn double_evaluations<F: NttFriendlyFieldElement>(out_len: usize, evals: &[F]) -> Result<Vec<F>, String> {
+        let mut out = vec![F::zero(); out_len];
+        e(polynomial::double_evaluations(&mut out, evals))?;
+        Ok(out)
+    }
+    /// `poly_mul_lagrange` into a zeroed buffer of `out_len` elements.
+    pub fn mul_lagrange<F: NttFriendlyFieldElement>(out_len: usize, p: &[F], q: &[F]) -> Result<Vec<F>, String> {
+        let mut out = vec![F::zero(); out_len];
+        e(polynomial::poly_mul_lagrange(&mut out, p, q))?;
+        Ok(out)
+    }
+    /// `poly_range_check`.
+    pub fn range_check<F: NttFriendlyFieldElement>(start: usize, end: usize) -> Vec<F> {
+        polynomial::poly_range_check(start, end)
+    }
+    /// `poly_eval_monomial`.
+    pub fn eval_monomial<F: NttFriendlyFieldElement>(poly: &[F], x: F) -> F {
+        polynomial::poly_eval_monomial(poly, x)
+    }
+    /// `poly_mul_monomial`.
+    pub fn mul_monomial<F: NttFriendlyFieldElement>(p: &[F], q: &[F]) -> Vec<F> {
+        polynomial::poly_mul_monomial(p, q)
+    }
+    /// `poly_interpret_eval` with a scratch buffer of the input's length.
+    pub fn interpret_eval<F: NttFriendlyFieldElement>(points: &[F], x: F) -> F {
+        let mut tmp = vec![F::zero(); points.len()];
+        polynomial::poly_interpret_eval(points, x, &mut tmp)
+    }
+}
